@@ -48,6 +48,15 @@ def canon(v):
     return v
 
 
+SPIN_LIMIT = 6000      # logged actions at ONE virtual instant after which the run counts as a livelock (normal: < 300)
+
+
+class Livelock(BaseException):
+    """raised inside the tasks of the code under test (never in the scenario's own task) to end a run in which evaluation /
+    write / polling tasks keep each other busy for ever without virtual time advancing -- such a run would otherwise never
+    reach the next timer, so no virtual-time bound can fire.  A BaseException, so that `except Exception` does not swallow it."""
+
+
 class Env:
     """imports the implementation once per process and owns the monkeypatches"""
     inst = None
@@ -210,7 +219,17 @@ class Env:
     def log(self, item):
         if self.rec is not None:
             from harness.common import vloop
-            self.rec.append([vloop.vtime_ms()] + item)
+            vt = vloop.vtime_ms()
+            if vt == self.spin_vt:
+                self.spin_n += 1
+            else:
+                self.spin_vt, self.spin_n = vt, 0
+            if self.spin_n > SPIN_LIMIT:
+                self.livelock = True
+                if asyncio.current_task() is not self.main_task:
+                    raise Livelock()
+                return
+            self.rec.append([vt] + item)
 
     def now_ms(self):
         import time
@@ -252,6 +271,7 @@ class Env:
         self.ev_handlers._registered_handlers[:] = [self.handler]
         self.ev_handlers._enabled = True
         self.cur_origin = 'setup'
+        self.spin_vt, self.spin_n, self.livelock, self.main_task = None, 0, False, None
 
     def busy(self):
         """ports with a queued or running evaluation / write ('*' = a pass holds the update lock)"""
@@ -331,6 +351,7 @@ class Env:
     async def run_async(self, sc, extra=None):
         cp, main = self.core_ports, self.main
         self.reset()
+        self.main_task = asyncio.current_task()
         self.rec = None
         from qtoggleserver import persist
         await persist.remove(cp.BasePort.PERSIST_COLLECTION)
@@ -438,6 +459,9 @@ class Env:
                     if b not in out['unsettled']:
                         out['unsettled'].append(b)
                 states.append(self.state())
+                if self.livelock:
+                    out['stuck'].append({'step': si, 'what': 'livelock: more than %d logged actions (passes, reads, evaluations, '
+                                                             'writes) at one virtual instant' % SPIN_LIMIT})
                 if out['stuck']:
                     break          # the system is wedged; what follows says nothing new
         finally:
